@@ -231,7 +231,7 @@ def main(argv=None):
 
     t = ctx.tally
     print("[%s] tier=%s evaluations=%d executions=%d states=%d transitions=%d distinct_nontrivial=%d outcomes=%d exhaustive=%s wall=%.1fs" % (
-        pid, tier, t.evaluations, t.executions, t.states, t.transitions, len(t.nontrivial), len(t.outcomes), ctx.exhaustive, wall))
+        pid, tier, t.evaluations, t.executions, t.states + len(t.state_set), t.transitions, len(t.nontrivial), len(t.outcomes), ctx.exhaustive, wall))
     for c, n in sorted(t.clauses.items()):
         print("  clause %-45s held %d" % (c, n))
     for fid, (entry, n, v) in sorted(known.items()):
